@@ -312,7 +312,7 @@ class Compiler:
         # Sanity checks.
         if indexes[0] == indexes[1]:
             raise CompilationError('the two PIVOT BY columns cannot be the same column')
-        if indexes[1] not in group_indexes:
+        if group_indexes is None or indexes[1] not in group_indexes:
             raise CompilationError('the second PIVOT BY column must be a GROUP BY column')
 
         return indexes
